@@ -33,7 +33,7 @@ RULE = (
     "with form in {propagate, iter sample, split propagate, backward propagate}, distinct by that tuple"
 )
 BOUNDS = {
-    "quick": "one re-used KeplerNum object: every order of the 4 methods + all ordered pairs of 9 settings (method, step, tol, bodies, frame), each step vs a "
+    "quick": "constructor forms (bodies as one body / list / tuple, one and two bodies); one re-used KeplerNum object: every order of the 4 methods + all ordered pairs of 9 settings (method, step, tol, bodies, frame), each step vs a "
     "fresh propagator (bit-identical) and the textbook scheme (thorough: + all triples); adaptive methods x steps {60, 120} s on the Molniya-like orbit started at apogee, 0.95 period across the perigee: re-sampled streams "
     "(77 s, 2.5 h, dates=DateRange) and propagate() to 4 off-grid dates vs the native nodes and the exact flow; 4 orbits x 4 methods x steps {5,15,30,60,120} s; horizon min(3 periods, 1000 steps) (Euler: P/20 for the order test); "
     "request forms: targets P/20, P/4, -P/4 (+P where <= 600 steps), output steps {own, equal-but-not-identical, 2.5 h, 7 s}",
@@ -233,6 +233,7 @@ def units(tier, seed):
     per = max(1, len(seqs) // (4 if tier == "quick" else 16))
     for i in range(0, len(seqs), per):
         u.append((cfg, dict(part="reuse", method="rk4", h=60, orbit="e03", seqs=seqs[i : i + per])))
+    u.append((cfg, dict(part="ctor", method="rk4", h=60, orbit="e03")))
     # heavy units first (longest-processing-time scheduling)
     u.sort(key=lambda x: -_cost(x[1]))
     return u
@@ -243,6 +244,8 @@ def _cost(p):
     if p["part"] == "march":
         return p["n"] * per * (1.6 if p["method"] in ORDER else 1.0)
     P = _period(p["orbit"])
+    if p["part"] == "ctor":
+        return 5000
     if p["part"] == "reuse":
         return 200 * len(p["seqs"])
     if p["part"] == "xper":
@@ -267,6 +270,8 @@ def check_case(case, t):
             check_adaptive_march(case, t)
     elif case["part"] == "xper":
         check_cross_perigee(case, t)
+    elif case["part"] == "ctor":
+        check_constructor_forms(case, t)
     elif case["part"] == "reuse":
         for seq in case["seqs"]:
             check_reuse(dict(part="reuse", orbit=case["orbit"], seq=seq), t)
@@ -931,3 +936,49 @@ def check_reuse(case, t):
                 t.fail(f"KeplerNum/{method}/reused-propagator-vs-textbook-scheme", "fixed-step march equals the textbook scheme on the same grid", c,
                        [float(x) for x in yr], [float(x) for x in ya], f"{name}: sequence {[SETTINGS[i][:3] for i in seq[:k+1]]}: {d:.3e} m")
                 return
+
+
+# ---------------------------------------------------------------------------
+# argument forms of the constructor: bodies as one body, a list, a tuple (one and two bodies)
+
+
+def check_constructor_forms(case, t):
+    from datetime import timedelta
+    from beyond.orbits import Orbit
+    from beyond.propagators.keplernum import KeplerNum
+    from beyond.env.solarsystem import get_body
+
+    name = case["orbit"]
+    only = case.get("only")
+    y0 = y0_of(name)
+    earth, moon = _G["earth"], get_body("Moon")
+    forms = {
+        "1/list": lambda: [earth], "1/single": lambda: earth, "1/tuple": lambda: (earth,),
+        "2/list": lambda: [earth, moon], "2/tuple": lambda: (earth, moon),
+    }
+    ref = {}
+    for method in ("rk4", "dopri54"):
+        for fname, mk in forms.items():
+            key = f"{method}/{fname}"
+            if only and only not in (key, f"{method}/{fname[0]}/list"):
+                continue
+            t.ev(("K", name, key))
+            t.state(("K", name, key))
+            c = dict(part="ctor", orbit=name, method=method, h=60, only=key)
+            try:
+                orb = Orbit(y0, _G["epoch"], "cartesian", "EME2000", KeplerNum(timedelta(seconds=60), mk(), method=method))
+                p = A(orb.propagate(at(1200 * 10**6)))
+                s2 = A(list(orb.iter(stop=at(600 * 10**6)))[-1])
+                t.trans(2)
+            except LIBERR as e:
+                t.fail(f"KeplerNum/constructor/bodies-as-{fname.split('/')[1]}/raises-{type(e).__name__}",
+                       "bodies may be given as one body, a list or a tuple (documented): the propagator built from them propagates", c, "states", repr(e)[:300],
+                       f"KeplerNum(step, bodies={fname}, method={method}): {type(e).__name__}: {str(e)[:150]}")
+                continue
+            got = np.concatenate([p, s2])
+            base = ref.setdefault((method, fname[0]), got) if fname.endswith("list") else ref.get((method, fname[0]))
+            t.outcome(("ctor", fname))
+            if base is not None and not np.array_equal(got, base):
+                t.fail(f"KeplerNum/constructor/bodies-as-{fname.split('/')[1]}/differs-from-list-form",
+                       "the form in which the bodies are given does not change the result", c, [float(x) for x in base], [float(x) for x in got],
+                       f"KeplerNum(step, bodies={fname}, method={method}) differs from the list form by {float(np.max(np.abs(got - base))):.3e}")
